@@ -582,6 +582,10 @@ def checkpoint_lattice(seed, quick):
         {"kind": "ins", "model": "G2", "seed": seed, "kwargs": {"draw_iid_live": False, "strict_threshold": True}},
         {"kind": "ins", "model": "G2hole", "seed": seed, "kwargs": {"draw_constant": False, "min_remove": 3}},
         {"kind": "ins", "model": "G3", "seed": seed, "kwargs": {"flow_config": {"ftype": "maf"}, "replace_all": True}},
+        # flows with state beyond their trained weights (buffers estimated after training)
+        {"kind": "ins", "model": "G2", "seed": seed, "kwargs": {"flow_config": {"distribution": "lars"}}},
+        {"kind": "std", "model": "G2", "seed": seed, "kwargs": dict(fast, flow_config={"distribution": "lars"})},
+        {"kind": "ins", "model": "G2", "seed": seed, "kwargs": {"flow_config": {"batch_norm_between_layers": True}}},
         # more than ten levels (level_10 sorts before level_2 as a string)
         {"kind": "ins", "model": "G2", "seed": seed, "kwargs": {"max_iteration": 13, "min_iteration": 13, "nlive": 30, "min_samples": 5}},
     ]
